@@ -87,4 +87,32 @@ func init() {
 		Mutation{Name: "benign-rename-resolver", File: "retriever/load.go",
 			Old: "\t\tnodeIDs := newNodeIDResolver(graphEntry.NodeCount)\n", New: "\t\tsourceIDs := newNodeIDResolver(graphEntry.NodeCount)\n\t\tnodeIDs := sourceIDs\n"},
 	)
+	add("C03",
+		Mutation{Name: "benign-rename-clause-index", File: "cypher/models/pgsql/optimize/lowering.go",
+			Old: "\tfor clauseIndex, readingClause := range readingClauses {\n\t\tif readingClause == nil || readingClause.Match == nil {\n\t\t\tcontinue\n\t\t}\n\n\t\tfor patternIndex, patternPart := range readingClause.Match.Pattern {\n\t\t\ttargets[patternPart] = PatternTarget{\n\t\t\t\tQueryPartIndex: queryPartIndex,\n\t\t\t\tClauseIndex:    clauseIndex,",
+			New: "\tfor position, readingClause := range readingClauses {\n\t\tif readingClause == nil || readingClause.Match == nil {\n\t\t\tcontinue\n\t\t}\n\n\t\tfor patternIndex, patternPart := range readingClause.Match.Pattern {\n\t\t\ttargets[patternPart] = PatternTarget{\n\t\t\t\tQueryPartIndex: queryPartIndex,\n\t\t\t\tClauseIndex:    position,"},
+	)
+	add("C10",
+		Mutation{Name: "benign-copy-into-local-first", File: "query/neo4j/neo4j.go",
+			Old: "\t\tquery.GetFirstReadingClause(s.query).Match.Where = cypher.Copy(typedCriteria)\n",
+			New: "\t\townWhere := cypher.Copy(typedCriteria)\n\t\tquery.GetFirstReadingClause(s.query).Match.Where = ownWhere\n"},
+	)
+	add("C19",
+		Mutation{Name: "benign-log-after-checkpoint-write", File: "retriever/dump.go",
+			Old: "\t\ttotalEdges += graphEntry.EdgeCount\n\n\t\tslog.Info(\"retriever dump graph completed\",", New: "\t\ttotalEdges += graphEntry.EdgeCount\n\t\tslog.Debug(\"retriever dump checkpoint written\", slog.Int(\"graphs\", len(checkpoint.Manifest.Graphs)))\n\n\t\tslog.Info(\"retriever dump graph completed\","},
+	)
+	add("C20",
+		Mutation{Name: "benign-manifest-strict-decoder", File: "retriever/manifest.go",
+			Old: "\t} else if err := json.Unmarshal(contents, &value); err != nil {\n\t\treturn value, fmt.Errorf(\"decode manifest: %w\", err)\n",
+			New: "\t} else if err := decodeSingleJSONDocument(contents, &value); err != nil {\n\t\treturn value, fmt.Errorf(\"decode manifest: %w\", err)\n",
+			Also: []Edit{
+				{"retriever/manifest.go", "func readManifest(inputDir string) (Manifest, error) {", "func decodeSingleJSONDocument(contents []byte, into any) error {\n\tdecoder := json.NewDecoder(bytes.NewReader(contents))\n\tif err := decoder.Decode(into); err != nil {\n\t\treturn err\n\t}\n\tif err := decoder.Decode(&struct{}{}); err != io.EOF {\n\t\treturn fmt.Errorf(\"unexpected data after the document\")\n\t}\n\treturn nil\n}\n\nfunc readManifest(inputDir string) (Manifest, error) {"},
+				{"retriever/manifest.go", "import (\n", "import (\n\t\"bytes\"\n\t\"io\"\n"},
+			}},
+	)
+	add("C16",
+		Mutation{Name: "benign-update-helper-under-callers-lock", File: "cache/sieve.go",
+			Old: "\tif existingEntry, exists := s.store[key]; exists {\n\t\t// Update the entry values\n\t\texistingEntry.value = value\n\t\texistingEntry.visited.Store(true)\n\t} else {\n\t\ts.putEntry(key, value)\n\t}\n}",
+			New: "\tif !s.refreshLocked(key, value) {\n\t\ts.putEntry(key, value)\n\t}\n}\n\n// refreshLocked assumes the caller holds the lock.\nfunc (s *Sieve[K, V]) refreshLocked(key K, value V) bool {\n\texistingEntry, exists := s.store[key]\n\tif exists {\n\t\texistingEntry.value = value\n\t\texistingEntry.visited.Store(true)\n\t}\n\treturn exists\n}"},
+	)
 }
